@@ -729,8 +729,14 @@ reprocess:
 
 #define MINI_FORMAT_STR_LEN 20
 
+/*
+ * buf_len is the number of bytes that may be read at buf: the format must
+ * end and every argument it asks for must lie within them, otherwise the
+ * text decoded so far is returned.
+ */
 size_t
-qb_vsnprintf_deserialize(char *string, size_t str_len, const char *buf)
+qb_vsnprintf_deserialize_n(char *string, size_t str_len, const char *buf,
+			   size_t buf_len)
 {
 	char *p;
 	char *format;
@@ -738,12 +744,17 @@ qb_vsnprintf_deserialize(char *string, size_t str_len, const char *buf)
 	int fmt_pos;
 
 	uint32_t location = 0;
-	uint32_t data_pos = strlen(buf) + 1;
+	size_t data_pos;
 	int type_long = QB_FALSE;
 	int type_longlong = QB_FALSE;
 	int len;
 
 	string[0] = '\0';
+	p = memchr(buf, '\0', buf_len);
+	if (p == NULL) {
+		return 1;
+	}
+	data_pos = (p - buf) + 1;
 	format = (char *)buf;
 	for (;;) {
 		type_long = QB_FALSE;
@@ -798,6 +809,9 @@ reprocess:
 
 		case '*': {
 			int arg_int;
+			if (buf_len - data_pos < sizeof(int)) {
+				goto out_of_data;
+			}
 			memcpy(&arg_int, &buf[data_pos], sizeof(int));
 			data_pos += sizeof(int);
 			fmt_pos += snprintf(&fmt[fmt_pos],
@@ -853,6 +867,9 @@ reprocess:
 			if (type_long) {
 				long int arg_int;
 
+				if (buf_len - data_pos < sizeof(long int)) {
+					goto out_of_data;
+				}
 				fmt[fmt_pos++] = *format;
 				fmt[fmt_pos++] = '\0';
 				memcpy(&arg_int, &buf[data_pos], sizeof(long int));
@@ -865,6 +882,9 @@ reprocess:
 			} else if (type_longlong) {
 				long long int arg_int;
 
+				if (buf_len - data_pos < sizeof(long long int)) {
+					goto out_of_data;
+				}
 				fmt[fmt_pos++] = *format;
 				fmt[fmt_pos++] = '\0';
 				memcpy(&arg_int, &buf[data_pos], sizeof(long long int));
@@ -877,6 +897,9 @@ reprocess:
 			} else {
 				int arg_int;
 
+				if (buf_len - data_pos < sizeof(int)) {
+					goto out_of_data;
+				}
 				fmt[fmt_pos++] = *format;
 				fmt[fmt_pos++] = '\0';
 				memcpy(&arg_int, &buf[data_pos], sizeof(int));
@@ -898,6 +921,9 @@ reprocess:
 			{
 			double arg_double;
 
+			if (buf_len - data_pos < sizeof(double)) {
+				goto out_of_data;
+			}
 			fmt[fmt_pos++] = *format;
 			fmt[fmt_pos++] = '\0';
 			memcpy(&arg_double, &buf[data_pos], sizeof(double));
@@ -912,6 +938,9 @@ reprocess:
 			{
 			unsigned char *arg_char;
 
+			if (buf_len - data_pos < sizeof(unsigned char)) {
+				goto out_of_data;
+			}
 			fmt[fmt_pos++] = *format;
 			fmt[fmt_pos++] = '\0';
 			arg_char = (unsigned char*)&buf[data_pos];
@@ -924,6 +953,10 @@ reprocess:
 			}
 		case 's':
 			{
+			if (memchr(&buf[data_pos], '\0',
+				   buf_len - data_pos) == NULL) {
+				goto out_of_data;
+			}
 			fmt[fmt_pos++] = *format;
 			fmt[fmt_pos++] = '\0';
 			len = snprintf(&string[location],
@@ -938,6 +971,9 @@ reprocess:
 		case 'p':
 			{
 			ptrdiff_t pt;
+			if (buf_len - data_pos < sizeof(ptrdiff_t)) {
+				goto out_of_data;
+			}
 			memcpy(&pt, &buf[data_pos],
 			       sizeof(ptrdiff_t));
 			fmt[fmt_pos++] = *format;
@@ -945,7 +981,7 @@ reprocess:
 			location += snprintf(&string[location],
 					     str_len - location,
 					     fmt, pt);
-			data_pos += sizeof(void*);
+			data_pos += sizeof(ptrdiff_t);
 			format++;
 			break;
 			}
@@ -957,5 +993,16 @@ reprocess:
 		}
 	}
 	return location;
+
+out_of_data:
+	/* the format asks for more than the buffer holds */
+	string[location] = '\0';
+	return location + 1;
+}
+
+size_t
+qb_vsnprintf_deserialize(char *string, size_t str_len, const char *buf)
+{
+	return qb_vsnprintf_deserialize_n(string, str_len, buf, SIZE_MAX);
 }
 
